@@ -305,7 +305,14 @@ fn judge_decoder(input: &[u8], label: &str, rep: &mut Report, replay: Value) {
             }
             rep.count("need_more", 1);
         }
-        Ok(Ok(true)) => rep.count("delivered", 1),
+        Ok(Ok(true)) => {
+            if let Some(t) = ber::outer_complete(input) {
+                if let Err(ber::DecErr::Bad("inner element overruns its container")) = ber::decode_exact(&input[..t]) {
+                    rep.violation("C11:malformed-frame-delivered:inner-element-overruns-its-container", format!("input {} ({}): delivered as a message although an inner element does not fit into its container", ber::hex(&input[..input.len().min(80)]), label), replay);
+                }
+            }
+            rep.count("delivered", 1)
+        }
         Ok(Err(_)) => rep.count("rejected", 1),
     }
     rep.count(&format!("input_{}", cls), 1);
@@ -432,11 +439,17 @@ pub struct DriverObs {
     /// had the pending bind already been resolved after the hostile frame and a quiescence barrier,
     /// i.e. before anything else (valid follow-up, EOF) was sent?
     pub bind_resolved_before_anything_else: bool,
+    /// events (items, end, error) the search stream had seen before / after the hostile frame
+    pub stream_events_before: usize,
+    pub stream_events_after: usize,
 }
 
 fn envelope_class(input: &[u8]) -> &'static str {
     // narrow definition of "not an LDAPMessage envelope"
     match ber::decode_exact(input) {
+        // an inner element that runs past the end of its container: the bytes cannot be read as BER
+        // at all, whatever the outer header says
+        Err(ber::DecErr::Bad("inner element overruns its container")) => "not-an-envelope",
         Err(_) => "malformed-ber",
         Ok((n, _)) => match &n {
             Node::C { class: 0, tag: 16, kids } => {
@@ -489,8 +502,13 @@ pub fn observe_driver_case(rng: &mut Rng, forced: Option<Vec<u8>>) -> (DriverObs
             }
         });
         let w1 = server.request().await;
+        let stream_events = std::sync::Arc::new(std::sync::atomic::AtomicUsize::new(0));
+        let se2 = stream_events.clone();
         let t2 = tokio::spawn(async move {
             let mut evs = vec![];
+            let bump = move || {
+                se2.fetch_add(1, std::sync::atomic::Ordering::SeqCst);
+            };
             let st = world::watchdog(Caught::new(l2.streaming_search("dc=x", Scope::Subtree, "(a=b)", vec!["*"]))).await;
             let mut st = match st {
                 Ok(Ok(Ok(s))) => s,
@@ -500,7 +518,10 @@ pub fn observe_driver_case(rng: &mut Rng, forced: Option<Vec<u8>>) -> (DriverObs
             };
             loop {
                 match world::watchdog(Caught::new(st.next())).await {
-                    Ok(Ok(Ok(Some(_)))) => evs.push("item".to_string()),
+                    Ok(Ok(Ok(Some(_)))) => {
+                        bump();
+                        evs.push("item".to_string())
+                    }
                     Ok(Ok(Ok(None))) => {
                         evs.push("end".into());
                         break;
@@ -532,9 +553,11 @@ pub fn observe_driver_case(rng: &mut Rng, forced: Option<Vec<u8>>) -> (DriverObs
             server.send(&ber::encode_min(&resp_node(2, &Resp::Entry { dn: format!("e={}", k).into_bytes(), attrs: vec![] }, None)));
         }
         world::settle().await;
+        let ev_before = stream_events.load(std::sync::atomic::Ordering::SeqCst);
         server.send(&input2);
         world::settle().await;
         let resolved_early = t1.is_finished();
+        let ev_after = stream_events.load(std::sync::atomic::Ordering::SeqCst) + if t2.is_finished() { 1 } else { 0 };
         if follow_with_valid {
             server.send(&ber::encode_min(&resp_node(1, &Resp::Bind { res: Res::ok("ok"), sasl: None }, None)));
             server.send(&ber::encode_min(&resp_node(2, &Resp::Done(Res::ok("done")), None)));
@@ -544,7 +567,7 @@ pub fn observe_driver_case(rng: &mut Rng, forced: Option<Vec<u8>>) -> (DriverObs
         let bind = t1.await.unwrap_or_else(|_| "task-died".into());
         let stream = t2.await.unwrap_or_else(|_| vec!["task-died".into()]);
         let d = world::watchdog(c.driver).await;
-        let mut o = DriverObs { bind, stream, bind_resolved_before_anything_else: resolved_early, ..Default::default() };
+        let mut o = DriverObs { bind, stream, bind_resolved_before_anything_else: resolved_early, stream_events_before: ev_before, stream_events_after: ev_after, ..Default::default() };
         match d {
             Ok(Ok(Ok(Ok(())))) => o.driver = "Ok".into(),
             Ok(Ok(Ok(Err(e)))) => o.driver = format!("Err({})", e),
@@ -586,6 +609,24 @@ fn judge_driver_case(i: u64, rep: &mut Report, obs: &DriverObs, input: &[u8], la
             rep.violation("C11:non-envelope-input-did-not-end-the-connection-with-an-error", format!("frame {} ({}): driver {} bind {} stream {:?}", ber::hex(&input[..input.len().min(80)]), label, obs.driver, obs.bind, obs.stream), replay.clone());
         }
         rep.count("non_envelope_frames", 1);
+    }
+    if complete && envelope_class(&input) == "envelope" && obs.driver_panic.is_none() {
+        let id = match ber::decode_exact(&input) {
+            Ok((Node::C { kids, .. }, _)) => match kids.first() {
+                Some(Node::P { data, .. }) => ber::int_value(data).unwrap_or(-1),
+                _ => -1,
+            },
+            _ => -1,
+        };
+        let swallowed = match id {
+            1 => !obs.bind_resolved_before_anything_else,
+            2 => !obs.bind_resolved_before_anything_else && obs.stream_events_after <= obs.stream_events_before,
+            _ => false,
+        };
+        if swallowed {
+            rep.violation("C11:complete-frame-for-a-pending-operation-neither-delivered-nor-rejected", format!("frame {} ({}) addressed to the pending {}: after a quiescence barrier the operation had seen nothing and the connection was still up; later: driver {} bind {} stream {:?}", ber::hex(&input[..input.len().min(80)]), label, if id == 1 { "bind" } else { "search" }, obs.driver, obs.bind, obs.stream), replay.clone());
+        }
+        rep.count("well_formed_envelopes_for_a_pending_operation", if id == 1 || id == 2 { 1 } else { 0 });
     }
     for s in std::iter::once(&obs.bind).chain(obs.stream.iter()) {
         if s.contains("Panic(") {
